@@ -42,8 +42,27 @@ def parseEnt (s : String) : Option Ent :=
 def resChar : Res → Char
   | .ok => 'o' | .validation => 'v' | .io => 'i'
 
+/-- `B <op> <op> …` — a formatter-backed stream over a buffering writer (`Sinks.FmtBuf`): ops `n<len>`
+(`next` of an entry whose record has `len` bytes), `fo` / `ff` (`flush`, the writer's flush succeeds / fails).
+Reply: result of every call (`o`/`e`), then ` | <delivered bytes> <buffered bytes> <writer flush calls>`. -/
+def handleBuf (toks : List String) : String :=
+  let parse (acc : Option (List FmtBuf.Op × Nat)) (t : String) : Option (List FmtBuf.Op × Nat) := do
+    let (ops, off) ← acc
+    if t == "fo" then pure (ops ++ [.flush true], off)
+    else if t == "ff" then pure (ops ++ [.flush false], off)
+    else if t.startsWith "n" then
+      let k ← (t.drop 1).toNat?
+      pure (ops ++ [.next (List.range' off k)], off + k)
+    else none
+  match (toks.filter (· ≠ "")).foldl parse (some ([], 0)) with
+  | some (ops, _) =>
+    let (w, rs) := FmtBuf.run FmtBuf.init ops
+    s!"{String.ofList (rs.map fun r => if r then 'o' else 'e')} | {w.delivered.length} {w.buf.length} {w.flushCalls}"
+  | none => "bad-op"
+
 def handle (line : String) : String :=
   match line.trimAscii.toString.splitOn " " with
+  | "B" :: toks => handleBuf toks
   | [treeS, kind, entsS] =>
     match parseTree (treeS.splitOn "."), (if entsS == "-" then some [] else (entsS.splitOn ",").mapM parseEnt) with
     | some t, some ents =>
